@@ -84,6 +84,29 @@ func checkC18(c *Checker) {
 				okH1, d1 = false, fmt.Sprintf("Slice allocates %d headers", nHeader)
 			}
 		}
+		// a caller's slice must not be turned into an interface value on ANY path, the panicking ones included: the
+		// compiler's escape analysis is flow-insensitive, a parameter that leaks on the error path makes every caller
+		// heap-allocate the scratch slices it passes (a lazily formatted message with %T or %v of the argument)
+		for _, o := range s.Outcomes {
+			for _, e := range o.St.effects {
+				if e.Kind != EAlloc || !strings.HasPrefix(e.Note, "interface boxing") {
+					continue
+				}
+				sv, isS := e.Val.(SliceV)
+				if !isS || sv.Stor == nil {
+					continue
+				}
+				root := sv.Stor
+				for root.Parent != nil {
+					root = root.Parent
+				}
+				for _, pa := range fn.Params {
+					if _, isSl := pa.Type().Underlying().(*types.Slice); isSl && pa.Name() == root.Name {
+						okH1, d1 = false, fmt.Sprintf("the caller's slice %s is boxed into an interface at %s (on a %s path): the parameter leaks, so callers that pass stack scratch slices allocate on every call", pa.Name(), c.effPos(e), map[bool]string{true: "panicking", false: "returning"}[o.Kind == OPanic])
+					}
+				}
+			}
+		}
 		p := c.pos(fn.Pos())
 		c.expect(okH1, "C18-H1", inst, p, "no allocating construct outside the allowed ones", d1)
 		if strings.HasSuffix(name, ".Append") || strings.HasSuffix(name, ".AppendSample") {
@@ -96,6 +119,17 @@ func checkC18(c *Checker) {
 	// H4: the pool cycle is allocation-free only if Put really recycles: a path of Put that returns without
 	// handing the caller's buffer to sync.Pool.Put makes the next Get allocate a new one
 	c.rule("C18-H4", "recycling: every returning path of PoolAllocator.Put passes the caller's buffer to sync.Pool.Put, and Get returns the pool's value without a conditional fresh allocation", 1)
+	// the pool a Get/Put cycle recycles through must be the one PoolAlloc created: a PoolAllocator is passed by value,
+	// and a pool made lazily by the first Get or Put belongs to that copy only (a producer's Get never sees what a
+	// consumer's copy Put back, so every cycle allocates although no allocation site was added to the hot path)
+	if pm := c.poolModel(); pm != nil {
+		fnP := c.anchor("C18-H4", "PoolAlloc")
+		pos := ""
+		if fnP != nil {
+			pos = c.pos(fnP.Pos())
+		}
+		c.expect(pm.ok, "C18-H4", "PoolAlloc/shared-pool", pos, "the constructor creates the sync.Pool that every copy of the allocator shares", "the sync.Pool is not created by PoolAlloc ("+pm.why+"): copies of the allocator do not share one pool")
+	}
 	if fn := c.anchor("C18-H4", "(*PoolAllocator[T]).Put"); fn != nil && len(fn.Params) == 2 {
 		s := c.Summary(fn)
 		if !c.undecidedEffects("C18-H4", "PoolAllocator.Put", s) {
@@ -302,13 +336,15 @@ func checkC19(c *Checker) {
 	}
 	// N5: a window is a private header. Slice must build a fresh header on every path, otherwise a header-changing
 	// operation (Append, AppendSample, Put) on the "window" rewrites the header other goroutines are reading (C02-R2).
-	c.rule("C19-N5", "every window is a private header: Slice returns a fresh object on every path and does not write the receiver (C02-R2)", 2)
+	c.rule("C19-N5", "every window is a private header over exactly the frames asked for: Slice returns a fresh object on every path, does not write the receiver (C02-R2) and reslices the storage at channels*start (C02-R1)", 3)
 	sub2 := newChecker(c.Prop, c.Tier, c.Seed, c.verifDir)
 	sub2.W = c.W
 	sub2.sums = c.sums
 	checkC02(sub2)
 	for _, o := range sub2.Obligs {
-		if o.Rule == "C02-R2" {
+		// R2: the window is a private header; R1: it is the window that was asked for (a writer "confined to its
+		// own frame range through Slice" is confined only if Slice(k, k) starts at frame k and not somewhere else)
+		if o.Rule == "C02-R2" || o.Rule == "C02-R1" {
 			c.add("C19-N5", o.Rule+"/"+o.Instance, o.Pos, o.Verdict, o.Detail, o.Witness)
 		}
 	}
